@@ -2,6 +2,7 @@ package main
 
 import (
 	"fmt"
+	"go/constant"
 	"go/token"
 	"go/types"
 	"strings"
@@ -543,6 +544,10 @@ func foldRules(c *Ctx) {
 			r.Ob("FOLD", fmt.Sprintf("newUnaryExpr negation #%d is under op == SUB", n), t.Pos(s.Pos()), gd, "a literal may be negated only for a minus sign")
 		})
 	}
+	if n < 2 {
+		// the folding sits deeper than one helper: decide it on the constructor's outcomes instead
+		n += foldSignSpec(c, nu, sub)
+	}
 	r.FloorN("literal negations in newUnaryExpr", n, 2)
 	m := arithRejectRule(c, "FOLD")
 	r.FloorN("parse-time rejections in newArithmeticExpr", m, 1)
@@ -728,4 +733,81 @@ func arithRejectRule(c *Ctx, rule string) int {
 		}
 	}
 	return m
+}
+
+// foldSignSpec: newUnaryExpr specialised for the operator (minus, plus) and the operand kind (float, integer
+// literal), stores through the operand recorded as effects. For a minus sign the literal's value is stored negated
+// (`x.Val := -x.Val`) on every folded outcome; for a plus sign the value is not changed. One obligation per kind.
+func foldSignSpec(c *Ctx, nu *ssa.Function, sub int64) int {
+	r, t := c.R, c.T
+	pp := t.SSA[pParser]
+	add, _ := constInt(pp.Const("ADD").Value)
+	_, s2k := kindTable(t)
+	n := 0
+	if len(nu.Params) != 3 {
+		return 0
+	}
+	opN, rN := nu.Params[1].Name(), nu.Params[2].Name()
+	for _, kind := range []string{"FloatLiteral", "IntegerLiteral"} {
+		k, ok := s2k[kind]
+		if !ok {
+			continue
+		}
+		okKind := true
+		detail := ""
+		for _, op := range []int64{sub, add} {
+			cfg := &specCfg{MaxLoop: 2, MaxDepth: 4, StoreEffects: true,
+				Paths: map[string]sval{opN + ".Typ": constv(constant.MakeInt64(op)), rN + ".NodeType": constv(constant.MakeInt64(k))}}
+			cfg.Call = func(fn *ssa.Function, call *ssa.Call, nth int, args []sval) (sval, bool) {
+				if cal := call.Call.StaticCallee(); cal != nil {
+					switch cal.Name() {
+					case "LnCol", "PositionRange":
+						return symv(cal.Name()), true
+					case kind: // the accessor of the literal: a projection of the node
+						if len(args) == 1 {
+							return symv(args[0].String() + "." + kind + "()"), true
+						}
+					}
+				}
+				return sval{}, false
+			}
+			outs, ab := cfg.run(nu, []sval{symv("p"), symv(opN), symv(rN)})
+			if ab != "" || len(outs) == 0 {
+				okKind, detail = false, "could not be specialised: "+ab
+				continue
+			}
+			for _, o := range outs {
+				if len(o.Vals) != 1 || o.Vals[0].nil {
+					continue // a nil operand
+				}
+				negated, changed := false, false
+				for _, cd := range o.Cond {
+					if !strings.HasPrefix(cd, "effect:store ") || !strings.Contains(cd, ".Val := ") {
+						continue
+					}
+					lhs, rhs, _ := strings.Cut(strings.TrimPrefix(cd, "effect:store "), " := ")
+					if stripParens(rhs) == "-"+lhs || stripParens(rhs) == "-("+lhs+")" {
+						negated = true
+					} else if rhs != lhs {
+						changed = true
+					}
+				}
+				folded := o.Vals[0].String() == rN
+				switch {
+				case op == sub && folded && (!negated || changed):
+					okKind, detail = false, "a minus sign in front of the literal does not store the negated value"
+				case op == add && (negated || changed):
+					okKind, detail = false, "a plus sign changes the literal's value"
+				case !folded && (negated || changed):
+					okKind, detail = false, "the value is changed although the literal is not the result"
+				}
+			}
+		}
+		n++
+		if detail == "" {
+			detail = "specialised for minus and plus: minus stores -Val into the literal it returns, plus leaves Val alone"
+		}
+		r.Ob("FOLD", "newUnaryExpr folds the sign into a "+kind+" exactly for a minus sign", t.Pos(nu.Pos()), okKind, detail)
+	}
+	return n
 }
